@@ -851,7 +851,7 @@ func c20Request(c *Case, s *c20Server, line, verb, path string, kv map[string]st
 				c.Oracle("request-id-bad-mint", fmt.Sprintf("caller id %q is unusable but the response id %q is not 16 lowercase hex: %s", sent, got, where))
 			} else {
 				if s.minted[got] {
-					c.Oracle("request-id-not-fresh", fmt.Sprintf("minted id %q was already used in this case: %s", got, where))
+					c.Oracle("minted-request-id-repeated", fmt.Sprintf("minted id %q was already handed out by this server (%d minted so far): %s", got, len(s.minted), where))
 				}
 				s.minted[got] = true
 			}
@@ -1208,6 +1208,28 @@ func c20Gen(g *Gen) {
 			k.maxreq = v
 		}
 		tour(k)
+	}
+	// freshness over a long history on ONE server: well over a thousand minted ids, pairwise distinct
+	{
+		k := c20Cfg{cors: "0", ext: "0", upload: "0", proofreq: "0", comp: "default", hookfail: "0", proxyhdrs: "-",
+			sticky: "-", echo: "-", pfx: "-", auth: false, notfound: true}
+		lines := []string{k.line()}
+		nm := g.N(1300, 6000)
+		for i := 0; i < nm; i++ {
+			rid := "absent"
+			switch i % 7 {
+			case 3:
+				rid = XS("   ")
+			case 5:
+				rid = XS(strings.Repeat("q", 129+i%5))
+			}
+			t := c20Target{"GET", "/health", "empty", "-"}
+			if i%11 == 0 {
+				t = c20Target{"POST", "/nosuch", "empty", "-"}
+			}
+			lines = append(lines, c20ReqLine(t, rid, false))
+		}
+		g.Case(lines...)
 	}
 	// every boundary id against a plain route
 	k := c20RandCfg(r)
